@@ -799,6 +799,12 @@ func (fx *FnExec) havocRange(st *State, et types.Type, ref, off, n *Term) {
 	in := c.BVCmp("bvult", c.BVBin("bvsub", k, off), n)
 	fx.assumeGlobal(c.Forall([]*Term{k}, c.Implies(c.Not(in), c.Eq(c.Select(na, k), c.Select(old, k)))))
 	fx.setElemArray(st, et, ref, na)
+	if na.Sort == byteArr && na.Op == "const" {
+		if fx.arrOrigins == nil {
+			fx.arrOrigins = map[*Term]arrOrigin{}
+		}
+		fx.arrOrigins[na] = arrOrigin{old: old, doff: off, n: n}
+	}
 	fx.curPC = st.pc
 	fx.arrayUpdated(old, na, off, n)
 }
